@@ -149,9 +149,11 @@ class Restrict(Harness):
 class GeoRestrict(Harness):
     prop = "C14"; opname = "geo_restrict"
     goals = ["geojson.py:GeoJSON.read"]
-    def __init__(self, maxn):
-        self.maxn = maxn; self.name = f"C14.restrict.GeoJSON.read.n{maxn}"
-        self.bounds = {"features": f"0..{maxn}", "property keys": "ragged subsets of a, b, c", "columns": "ordered subsets of a, b, c, z"}
+    def __init__(self, maxn, typed=None):
+        self.maxn = maxn; self.typed = typed
+        self.name = f"C14.restrict.GeoJSON.read.n{maxn}" + (f".{typed}" if typed else "")
+        self.bounds = {"features": f"0..{maxn}", "property keys": "ragged subsets of a, b, c", "columns": "ordered subsets of a, b, c, z",
+                       "dtype map": f"a: {typed} (null / absent values included)" if typed else "none"}
         self.symbolic = ["integer property values"]; self.choice_dims = ["feature shapes", "requested columns"]
     def build(self, ctx):
         n = choice("n", range(self.maxn + 1))
@@ -159,10 +161,40 @@ class GeoRestrict(Harness):
         for i in range(n):
             props = {}
             for k in choice(f"keys{i}", [("a", "b", "c"), ("c", "a"), ("b",)]):
-                props[k] = json_value(ctx, f"v{i}{k}")
+                if self.typed == "str" and k == "a": props[k] = choice(f"v{i}a", [None, "s", "tt"])
+                else: props[k] = json_value(ctx, f"v{i}{k}")
             feats.append({"type": "Feature", "properties": props, "geometry": None})
-        return {"collection": {"type": "FeatureCollection", "features": feats},
-                "cols": list(choice("cols", [("a",), ("c", "a"), ("b", "z"), ("z",), ("a", "b", "c")]))}
+        cols = list(choice("cols", [("a",), ("c", "a"), ("b", "z"), ("z",), ("a", "b", "c")] if not self.typed else [("a",), ("c", "a"), ("a", "b", "c")]))
+        inp = {"collection": {"type": "FeatureCollection", "features": feats}, "cols": cols}
+        if self.typed and any("a" in f["properties"] for f in feats):
+            inp["dtypes"] = [["a", self.typed]]         # a map entry for a property no feature has raises KeyError (not examined)
+        return inp
+    def typed_clauses(self, a, b, nm):
+        """column a (restricted read with a dtype for it) against column b (unrestricted, uncast): the textbook cast"""
+        t = self.typed; cl = []
+        n = len(b)
+        cl.append((f"{nm}: same length as in the full read", T(len(a) == n)))
+        if len(a) != n: return cl
+        vals = b.cells if b.dtype == "object" else None
+        def missing(r): return (b.cells[r] is None) if b.dtype == "object" else None
+        if t == "str":
+            cl.append((f"{nm}: string column as requested", T(a.dtype == "string")))
+            if a.dtype != "string": return cl
+            for r in range(n):
+                src = b.cells[r]
+                want = "" if src is None else src
+                cl.append((f"{nm}[{r}]: the unrestricted value as a string, missing for null", symx.tocell(a.cells[r]).eq(symx.tocell(want)) if not (type(a.cells[r]) is str and type(want) is str) else T(a.cells[r] == want)))
+            return cl
+        any_null = b.dtype == "object" and any(c is None for c in b.cells)
+        want_dtype = "float64" if (t == "float" or any_null or b.dtype == "float64") else "int64"
+        cl.append((f"{nm}: {want_dtype} column (integers widen to float when a value is missing)", T(a.dtype == want_dtype)))
+        if a.dtype != want_dtype: return cl
+        for r in range(n):
+            if want_dtype == "float64":
+                cl.append((f"{nm}[{r}]: the unrestricted value as a float, NaN for null", ident(a.cells[r], as_float(b.cells[r], b.dtype))))
+            else:
+                cl.append((f"{nm}[{r}]: the unrestricted value", a.cells[r] == BV(b.cells[r])))
+        return cl
     def spec(self, inp, out):
         if isinstance(out, Raised): return [(f"does not raise ({out.type}: {out.msg[:80]})", T(False))]
         full, part = out["full"], out["part"]
@@ -171,6 +203,8 @@ class GeoRestrict(Harness):
         for nm in want:
             if nm not in part.cols or nm == "geometry": continue
             a, b = part.cols[nm], full.cols[nm]
+            if nm == "a" and inp.get("dtypes"):
+                cl += self.typed_clauses(a, b, nm); continue
             cl.append((f"{nm}: same dtype and length as in the full read", T(a.dtype == b.dtype and len(a) == len(b))))
             if a.dtype == b.dtype and len(a) == len(b):
                 for r in range(len(a)):
@@ -225,6 +259,8 @@ class RestrictFile(Harness):
 def harnesses(tier):
     hs = [Alias(a) for a in ALIASES]
     hs.append(GeoRestrict(2 if tier == "quick" else 3))
+    for t in ("str", "int", "float"):
+        hs.append(GeoRestrict(2, typed=t))
     n = 2 if tier == "quick" else 3
     for f in ("csv", "parquet"):
         hs.append(RestrictFile(f, 1 if tier == "quick" else 2))
